@@ -813,6 +813,14 @@ def check_ops(ctx, bins, ops, label=""):
                 replay_ops = ops[j:i + 1]
             ctx.violation("property", msg, signature=signature(op, msg),
                           replay={"ops": replay_ops, "impl": impl[i - len(replay_ops) + 1:i + 1]})
+    # a harness that cannot drive the code at all is a broken tie, not flakiness
+    for kind in ("tclose", "wire"):
+        idx = [i for i, o in enumerate(ops) if o.split()[0] == kind]
+        bad = [i for i in idx if impl[i].startswith("HARNESS-ERROR") or impl[i] == "<missing>"]
+        if len(idx) >= 4 and 2 * len(bad) > len(idx):
+            ctx.violation("correspondence", f"harness cannot drive `{kind}` any more: {impl[bad[0]][:160]}",
+                          signature={"kind": "harness-dead", "op": kind}, replay={"ops": [ops[bad[0]]], "impl": [impl[bad[0]]]},
+                          no_input=(nviol == 0))
     ndiff = 0
     if model_ok:
         cmp_impl = [wire_norm_impl(a) if o.startswith("wire ") else a for o, a in zip(ops, impl)]
